@@ -1502,6 +1502,7 @@ type fzCli struct {
 	// honest responses per role and exchange: as received, and (tunnelled ones) the plaintext before encryption
 	hWire, hPlain map[string][][]byte
 	addrs         []protocol.RvTO2Addr
+	last          string // outcome of the last case run ("" when it was skipped)
 }
 
 func (s *fzCli) enrol() error {
@@ -1574,6 +1575,7 @@ func (s *fzCli) one(role string, k int, q fzResp) {
 	}
 	id := fmt.Sprintf("client %s %s exchange %d %s", cfgName(s.cf), pos, k, q.kind)
 	run, done := s.begin(id, q.kind == "honest")
+	s.last = ""
 	if !run {
 		return
 	}
@@ -1698,6 +1700,7 @@ func (s *fzCli) one(role string, k int, q fzResp) {
 	if !hit && q.kind != "honest" {
 		outcome += "(position-not-reached)"
 	}
+	s.last = outcome
 	s.distinct("cli:"+pos, append([]byte(kind+"|"), sent...))
 	c.Count("cli_position", pos+" "+s.cf.spec.Name)
 	c.Count("cli_outcome", pos+" -> "+outcome)
@@ -1982,7 +1985,7 @@ const fzRule = "keys and deployments: fdo.DI against a manufacturer key of an od
 	"of the encrypted envelope), random strings, adversarial bodies (also 1 MiB), Message-Type / Authorization / Content-Type / status variants. Per run: no panic, " +
 	"return within 10 s, allocation <= 4 x honest run + 64 x response bytes + 8 MiB, and success is a failure only when the replacement was not CBOR at all. " +
 	"evaluations = requests / client runs with one altered message (honest baselines included); distinct = distinct altered byte strings per position. " +
-	"All mutation choices derive from the run's seed (key material and nonces are fresh per run)."
+	"All mutation choices derive from the run's seed (key material and nonces are fresh per run)." + fzMoreRule
 
 func fzBudget(c *core.Ctx) time.Duration {
 	if c.Quick() {
@@ -2015,6 +2018,7 @@ func fzChild(c *core.Ctx) {
 		budget = time.Duration(b) * time.Second
 	}
 	start := time.Now()
+	var extra time.Duration // spent on the further families (fuzz_more.go): not taken from the sweeps' budget
 	cfgs := fzConfigs(c)
 	addrs := []protocol.RvTO2Addr{{DNSAddress: strp("owner.test"), Port: 8043, TransportProtocol: protocol.HTTPSTransport}}
 	for ci, cf := range cfgs {
@@ -2024,7 +2028,7 @@ func fzChild(c *core.Ctx) {
 			continue
 		}
 		// each configuration gets an equal share of what is left; the server side gets the first half of the share
-		share := (budget - time.Since(start)) / time.Duration(len(cfgs)-ci)
+		share := (budget + extra - time.Since(start)) / time.Duration(len(cfgs)-ci)
 		f.deadline = time.Now().Add(share * 55 / 100)
 		e.Reuse = cf.reuse
 		t0 := time.Now()
@@ -2034,7 +2038,9 @@ func fzChild(c *core.Ctx) {
 			continue
 		}
 		n0 := f.nCase
-		srv.run(nSrv, nShapes, nSweep, ci == 0 || !c.Quick())
+		if !fzMoreOnly() {
+			srv.run(nSrv, nShapes, nSweep, ci == 0 || !c.Quick())
+		}
 		if f.nCase >= f.from {
 			c.Note("server side %s: %d cases in %.1fs", cfgName(cf), f.nCase-max(n0, f.from-1), time.Since(t0).Seconds())
 		}
@@ -2052,12 +2058,16 @@ func fzChild(c *core.Ctx) {
 			cli.uninstall()
 			continue
 		}
-		cli.run(nCli, nVar, nSweep)
-		cli.uninstall()
-		cli.e.Reuse = false
+		if !fzMoreOnly() {
+			cli.run(nCli, nVar, nSweep)
+		}
 		if f.nCase >= f.from {
 			c.Note("client side %s: %d cases in %.1fs", cfgName(cf), f.nCase-max(n0, f.from-1), time.Since(t0).Seconds())
 		}
+		tm := time.Now()
+		fzMore(f, srv, cli, ci == 0) // uninstalls the client-side wrapper
+		extra += time.Since(tm)
+		cli.e.Reuse = false
 	}
 	_ = os.Remove(f.caseFile)
 }
